@@ -696,6 +696,8 @@ static int vi_motion(int *row, int *off)
 		break;
 	case '^':
 		*off = lbuf_indents(xb, *row);
+		if (*off > lbuf_eol(xb, *row))	/* an all-blank line: its terminator was counted as a blank */
+			*off = lbuf_eol(xb, *row);
 		break;
 	case '$':
 		*off = lbuf_eol(xb, *row);
